@@ -249,6 +249,15 @@ class C14:
                 for idx in idxs:
                     out.append({"kind": "setter", "pre": pre, "call": ["setstr", path, idx, "veto", "str"], "expect": "veto"})
                     out.append({"kind": "setter", "pre": pre, "call": ["setstr", path, idx, "fine", "str"], "expect": "fine"})
+        # pre-set validation callbacks registered by schema path (also below a multi section, before any instance exists)
+        for regpath, mk, path in (("tm|x", [["addtsec", 1, hx("tm"), hx("a")]], "tm=a|x"),
+                                  ("tm|x", [["parse_buf", 1, hx("tm p { }\ntm q { x = 4 }\n")]], "tm=q|x"),
+                                  ("single|x", [], "single|x"), ("multi|x", [["parse_buf", 1, hx("multi { }\nmulti { }\n")]], "multi=1|x"),
+                                  ("ni", [], "ni")):
+            pre = [["setvalidate2", 1, hx(regpath), 1]] + mk
+            out.append({"kind": "setter", "pre": pre, "call": ["setint", path, 0, "666", "int"], "expect": "veto"})
+            out.append({"kind": "setter", "pre": pre, "call": ["setint", path, 0, "777", "int"], "expect": 778})
+            out.append({"kind": "setter", "pre": pre, "call": ["setint", path, 0, "5", "int"], "expect": 5})
         return out
 
     def strategy(self, tier):
